@@ -1905,17 +1905,16 @@ static int32 getTicketKeys(ssl_t *ssl, unsigned char *c,
         /* found it */
         if (cachedTicket == 0)
         {
-            /* it's been found and added at end of list.  confirm this */
+            /* The callback says it has loaded the key: look it up by name.
+               (It is appended at the end of the list, but so is the key
+               another session's callback loaded meanwhile - the lock was
+               released around the callback.) */
             lkey = ssl->keys->sessTickets;
-            if (lkey == NULL)
-            {
-                return PS_FAILURE; /* user claims they added, but empty */
-            }
-            while (lkey->next)
+            while (lkey != NULL && Memcmp(lkey->name, c, 16) != 0)
             {
                 lkey = lkey->next;
             }
-            if (Memcmp(lkey->name, c, 16) != 0)
+            if (lkey == NULL)
             {
                 return PS_FAILURE; /* user claims to have added, but... */
             }
